@@ -81,6 +81,14 @@ Proof.
 Qed.
 Print Assumptions C13_requirement_specs_order_unrepaired_refuted.
 
+(* simplify_specifiers keeps the FIRST of several specifiers that name the same version; since the repair 8000e6b it goes
+   through the set in text-sorted order, so whatever it computes from the enumeration (any function f of the sorted list)
+   is the same for every enumeration of the same set *)
+Theorem C13_simplify_order : forall (T : Type) (f : list str -> T) e1 e2,
+  Permutation e1 e2 -> f (split_texts true e1) = f (split_texts true e2).
+Proof. intros T f e1 e2 H. unfold split_texts. now rewrite (s_sort_perm e1 e2 H). Qed.
+Print Assumptions C13_simplify_order.
+
 Example C13_requirement_specs_nonvacuous :
   split_texts true [([33; 61; 49; 46; 53]%N : str); ([60; 50]%N : str); ([62; 61; 49]%N : str); ([33; 61; 49; 46; 54]%N : str)] = [([33; 61; 49; 46; 53]%N : str); ([33; 61; 49; 46; 54]%N : str); ([60; 50]%N : str); ([62; 61; 49]%N : str)] /\
   split_texts true [([62; 61; 49]%N : str); ([33; 61; 49; 46; 54]%N : str); ([60; 50]%N : str); ([33; 61; 49; 46; 53]%N : str)] = [([33; 61; 49; 46; 53]%N : str); ([33; 61; 49; 46; 54]%N : str); ([60; 50]%N : str); ([62; 61; 49]%N : str)].
